@@ -362,7 +362,7 @@ let handle (line : string) : string =
          | Some e -> run e)
   | L [A "render"; A mode; e] ->
       let rec nat_of n = if n <= 0 then M.O else M.S (nat_of (n - 1)) in
-      (match M.canonical_text (nat_of (int_of_string mode)) (expr_of_sx e) with
+      (match M.canonical_text_ws (nat_of (int_of_string mode)) (expr_of_sx e) with
        | None -> "E not-canonical"
        | Some s -> "S " ^ show_str s)
   | L [A "sv"; id; p] -> "S " ^ show_str (M.string_value (Hashtbl.find docs (int_of_sx id)) (path_of_sx p))
